@@ -127,9 +127,9 @@ K_HARNESSES = {
 }
 
 QUICK_BOUNDS = {"NBYTES": 4, "NENT": 2}
-# (6 bytes, 3 entries) makes CBMC's allocator model raise a spurious `free argument has offset zero`; the two
-# dimensions are therefore deepened separately
-DEEP_BOUNDS = {"bytes": {"NBYTES": 6, "NENT": 2}, "entries": {"NBYTES": 4, "NENT": 3}}
+# (before std::alloc::dealloc was stubbed, (6, 3) made CBMC's allocator model raise a spurious `free argument has
+# offset zero` and the two dimensions had to be deepened separately)
+DEEP_BOUNDS = {"6x3": {"NBYTES": 6, "NENT": 3}}
 
 
 def KD(harness, ndigits, timeout=1500, mem_gb=24):
